@@ -113,6 +113,8 @@ def standin_save_load(tier, seed):
         cases.append(("logistic", dict(source_dimension=1), 2, "gaussian-scalar", None, "my_model", "fit"))
         cases.append(("linear", dict(source_dimension=1), 3, "gaussian-scalar", None, "Linear study #2", "fit"))
         cases.append(("logistic", dict(source_dimension=2), 3, "gaussian-scalar", None, None, "hand"))
+        cases.append(("logistic", dict(source_dimension=2), 3, "gaussian-diagonal", None, None, "live"))
+        cases.append(("linear", dict(source_dimension=1), 3, "gaussian-scalar", None, None, "live"))
         for q, (kind, kw, n_ft, noise, feats, inst, origin) in enumerate(cases):
             what = f"{kind}{kw or ''} {noise}" + (f" features {feats}" if feats else "") + (f" instance name {inst!r}" if inst else "") + (" hand-written parameters" if origin == "hand" else "")
             evals += 1
@@ -123,6 +125,27 @@ def standin_save_load(tier, seed):
                 violations.append(dict(key=f"{what}: cannot be fitted: {type(e).__name__}: {str(e)[:80]}"))
                 continue
             p1, p2 = os.path.join(tmp, f"a{q}.json"), os.path.join(tmp, f"b{q}.json")
+            if origin == "live":
+                # parameters written by hand on the LIVE model object (it already has a state): the population variables must follow
+                from leaspy.variables.specs import PopulationLatentVariable
+                newp = {}
+                for k_, v_ in m.parameters.items():
+                    t_ = torch.as_tensor(v_).clone().float()
+                    newp[k_] = t_ if (k_.endswith("_std") or k_ == "noise_std") else t_ + 0.2 + 0.05 * torch.arange(t_.numel(), dtype=torch.float32).reshape(t_.shape)
+                try:
+                    with quiet():
+                        m.load_parameters(newp)
+                except Exception as e:
+                    violations.append(dict(key=f"{what}: load_parameters on a fitted model raises {type(e).__name__}: {str(e)[:80]}"))
+                    continue
+                for name, var in m.state.dag.sorted_variables_by_type[PopulationLatentVariable].items():
+                    mode = var.prior.mode.call(m.state)
+                    cur = m.state[name]
+                    if not same_value(cur, mode.expand(cur.shape) if mode.shape != cur.shape else mode):
+                        violations.append(dict(key=f"{what}: after parameters were written by hand on the live model, population variable {name} is not at the mode of its prior",
+                                               value=str(cur.flatten()[:3].tolist()), mode=str(mode.flatten()[:3].tolist())))
+                        break
+                what += " parameters written on the live model"
             try:
                 m.save(p1)
                 if origin == "hand":
